@@ -150,6 +150,25 @@ class IVec:
             return a
         return IVec(out)
 
+    def __sym_compare__(self, interp, op, a, b):
+        """elementwise comparison (NumPy semantics), result: vector of booleans"""
+        n = len(a.e) if isinstance(a, IVec) else len(b.e)
+        xs = a.e if isinstance(a, IVec) else (list(a) if isinstance(a, (tuple, list)) else [a] * n)
+        ys = b.e if isinstance(b, IVec) else (list(b) if isinstance(b, (tuple, list)) else [b] * n)
+        if len(xs) != len(ys):
+            if len(xs) == 1:
+                xs = xs * len(ys)
+            elif len(ys) == 1:
+                ys = ys * len(xs)
+            else:
+                raise SymRaise(ExcInst(ValueError, ("operands could not be broadcast together",)))
+        out = []
+        for x, y in zip(xs, ys):
+            if isinstance(x, QVal) or isinstance(y, QVal):
+                raise Unsupported("comparison of rationals in an integer vector")
+            out.append(interp.compare(op, x, y))
+        return IVec(out)
+
     def __sym_getattr__(self, interp, name):
         if name == "shape":
             return (len(self.e),)
@@ -218,6 +237,28 @@ class IntNp:
             acc = acc * v
             out.append(acc)
         return IVec(out)
+
+    @staticmethod
+    def np_any(x, *a, **k):
+        import z3 as _z3
+
+        vs = [v if (_z3.is_expr(v) and _z3.is_bool(v)) else (v != 0 if _z3.is_expr(v) else bool(v)) for v in _flat(x)]
+        if not vs:
+            return False
+        if all(isinstance(v, bool) for v in vs):
+            return any(vs)
+        return _z3.Or(*[v if _z3.is_expr(v) else _z3.BoolVal(v) for v in vs])
+
+    @staticmethod
+    def np_all(x, *a, **k):
+        import z3 as _z3
+
+        vs = [v if (_z3.is_expr(v) and _z3.is_bool(v)) else (v != 0 if _z3.is_expr(v) else bool(v)) for v in _flat(x)]
+        if not vs:
+            return True
+        if all(isinstance(v, bool) for v in vs):
+            return all(vs)
+        return _z3.And(*[v if _z3.is_expr(v) else _z3.BoolVal(v) for v in vs])
 
     @staticmethod
     def np_prod(x, *a, **k):
